@@ -43,10 +43,13 @@ def cells(tier, seed):
                 for g in ("solve", "left") if cfg in ("default", "cg") else ("solve",):
                     out.append({"id": f"{name}/b{'x'.join(map(str, batch)) or '-'}/{cfg}/{g}",
                                 "params": {"builder": name, "n": 2, "batch": list(batch), "cfg": cfg, "group": g}})
-    for name in ("TriangularLower", "TriangularUpper", "KroneckerTriangular", "Triangular(Kron-free dense)T"):
+    for name in ("TriangularLower", "TriangularUpper", "KroneckerTriangular", "KroneckerTriangularUpper", "Triangular(Kron-free dense)T"):
         for batch in ((), (2,)):
             out.append({"id": f"{name}/b{'x'.join(map(str, batch)) or '-'}/default/triangular",
                         "params": {"builder": name, "n": 2, "batch": list(batch), "cfg": "default", "group": "triangular"}})
+    for name in ("CholKronLower",):
+        for g in ("solve", "left", "chol_of_kron_upper"):
+            out.append({"id": f"{name}/b-/default/{g}", "params": {"builder": name, "n": 2, "batch": [], "cfg": "default", "group": g}})
     for name in ("CholLower", "CholUpper"):
         out.append({"id": f"{name}/b-/default/chol_inverse", "params": {"builder": name, "n": 2, "batch": [], "cfg": "default", "group": "chol_inverse"}})
     for name in ("Permutation", "TransposePermutation"):
@@ -145,6 +148,26 @@ def harness(ctx):
             attempt(ctx, "_cholesky_solve", cs)
             Lf = ctx.leaf("lhsLf", (1, N))
             attempt(ctx, "tri.solve(left)", lambda: ctx.eq(op.solve(Bm, Lf), Lf @ op.solve(Bm), "triangular.solve(left) = L (T^-1 B)"))
+            return
+        if g == "chol_of_kron_upper":
+            # the same matrix, held through its UPPER Kronecker-structured Cholesky factor
+            from linear_operator.operators import CholLinearOperator, KroneckerProductLinearOperator
+            Bm = ctx.leaf("rhsB", (N, 2))
+            def chk():
+                A1 = ctx.leaf("KA", (2, 2), tril=True, posdiag=True)
+                B1 = ctx.leaf("KB", (2, 2), tril=True, posdiag=True)
+                kp = KroneckerProductLinearOperator(A1 @ A1.mT, B1 @ B1.mT)
+                from catalog.builders import kron_ref
+                full = kron_ref(A1 @ A1.mT, B1 @ B1.mT)
+                ctx.register_chol(A1 @ A1.mT, A1)
+                ctx.register_chol(B1 @ B1.mT, B1)
+                U = kp.cholesky(upper=True)
+                opu = CholLinearOperator(U, upper=True)
+                check_solve(ctx, opu.solve(Bm), full, Bm, "Chol(kron.cholesky(upper=True), upper=True).solve")
+                ctx.eq(full @ U._cholesky_solve(Bm, upper=True), Bm, "KroneckerTriangular._cholesky_solve(upper=True)")
+                Lk = kp.cholesky()
+                ctx.eq(full @ Lk._cholesky_solve(Bm, upper=False), Bm, "KroneckerTriangular._cholesky_solve(upper=False)")
+            attempt(ctx, g, chk)
             return
         if g == "chol_inverse":
             Bm = ctx.leaf("rhsB", (N, 2))
